@@ -30,9 +30,10 @@ def main():
     if '--property' in sys.argv:
         prop = sys.argv[sys.argv.index('--property') + 1]
     skip_verify = '--skip-verify' in sys.argv
+    refactor = '--refactor' in sys.argv
     dst = os.path.join(VERIF, 'seeded', sid)
     os.makedirs(dst, exist_ok=True)
-    for name in ('patch.diff', 'demo.py', 'notes.md'):
+    for name in ('patch.diff', 'demo.py', 'notes.md', 'equiv.py'):
         if os.path.exists(os.path.join(src, name)) and os.path.abspath(src) != os.path.abspath(dst):
             shutil.copy(os.path.join(src, name), os.path.join(dst, name))
     patch = os.path.join(dst, 'patch.diff')
@@ -49,7 +50,8 @@ def main():
                 meta['ran'].append('git apply failed: %s' % out[-300:])
                 raise SystemExit(3)
             os.makedirs(os.path.join(wt, '_seed'), exist_ok=True)
-            shutil.copy(os.path.join(dst, 'demo.py'), os.path.join(wt, '_seed', 'demo.py'))
+            if not refactor:
+                shutil.copy(os.path.join(dst, 'demo.py'), os.path.join(wt, '_seed', 'demo.py'))
             rc, out = sh('%s -m pytest -q -p no:cacheprovider -n 8 test/' % PY, cwd=wt)
             tail = out.strip().split('\n')[-1]
             failed = re.findall(r'FAILED (\S+)', out)
@@ -61,6 +63,10 @@ def main():
             meta['tests_with_patch'] = tail
             meta['tests_pass_with_patch'] = not bad
             meta['ran'].append('pytest -n 8 test/ (patched): %s' % tail)
+            if refactor:
+                meta['kind'] = 'behaviour-preserving refactoring'
+                meta['confirmed'] = bool(meta.get('tests_pass_with_patch'))
+                raise StopIteration
             rc, out = sh('%s _seed/demo.py' % PY, cwd=wt, timeout=600)
             meta['demo_with_patch_rc'] = rc
             meta['ran'].append('demo.py (patched) rc=%d: %s' % (rc, out.strip().split('\n')[-1][:200]))
@@ -68,11 +74,14 @@ def main():
             rc, out = sh('%s _seed/demo.py' % PY, cwd=wt, timeout=600)
             meta['demo_without_patch_rc'] = rc
             meta['ran'].append('demo.py (unpatched) rc=%d: %s' % (rc, out.strip().split('\n')[-1][:200]))
+        except StopIteration:
+            pass
         finally:
             sh('git -C %s worktree remove --force %s' % (REPO, wt))
             sh('git -C %s worktree prune' % REPO)
-        meta['confirmed'] = bool(meta.get('tests_pass_with_patch') and meta.get('demo_with_patch_rc') != 0
-                                 and meta.get('demo_without_patch_rc') == 0)
+        if not refactor:
+                meta['confirmed'] = bool(meta.get('tests_pass_with_patch') and meta.get('demo_with_patch_rc') != 0
+                                     and meta.get('demo_without_patch_rc') == 0)
     # ---- checks
     rc, out = sh('git -C %s status --porcelain' % REPO)
     if out.strip():
